@@ -2,7 +2,7 @@
 
 use serde_json::{json, Value};
 
-use crate::agentsim::{Profile, Summary};
+use crate::agentsim::{History, Profile, Summary};
 use crate::common::*;
 use crate::props::agentprops::*;
 
@@ -37,13 +37,21 @@ static PROP: AgentProp = AgentProp {
 
 pub fn run(ctx: &Ctx) -> EvidenceMeta {
     drive(ctx, &PROP, 25_000, 800_000);
+    ctx.proptest(
+        "dropped-response-relation",
+        ctx.n(12_000, 400_000),
+        || crate::agentsim::history_strategy(Profile::Auth, 50),
+        |h: &History, st| no_effect_relation(Relation::Dropped, &with_polls(h.clone()), st),
+    );
     EvidenceMeta {
         rule: "histories as in C05 biased to sealed requests (SHA-1, SHA-256, both), to responses drawn from {unsigned, signed with the \
                configured key / another configured-later key / a never configured key x SHA-1 / SHA-256 / both, one HMAC byte corrupted} \
                and to set_remote_credentials (unset, set, changed mid-transaction). Oracle: delivered iff the request was unsealed or remote \
                credentials are set and a reference HMAC check of the response bytes under them passes; before every expected drop the \
                agent is drained and its WaitUntil recorded, right after the drop poll must repeat it and the transaction must still be \
-               outstanding. Non-trivial = history with a dropped forged response followed by a timer comparison or a later genuine \
+               outstanding. Metamorphic relation (every poll a drain): the responses the agent dropped although their transaction is \
+               outstanding are replaced by no-ops and the history re-executed at the same instants; every other reply, wake-up instant and \
+               outstanding flag must be identical (a dropped response can neither complete, cancel nor delay). Non-trivial = history with a dropped forged response followed by a timer comparison or a later genuine \
                delivery; distinct by history."
             .into(),
         assumptions: vec![
@@ -54,6 +62,10 @@ pub fn run(ctx: &Ctx) -> EvidenceMeta {
     }
 }
 
-pub fn replay(_check: &str, case: &Value, st: &mut Stats) -> Result<TestResult, String> {
+pub fn replay(check: &str, case: &Value, st: &mut Stats) -> Result<TestResult, String> {
+    if check.contains("relation") {
+        let h: History = parse_case(case)?;
+        return Ok(no_effect_relation(Relation::Dropped, &with_polls(h), st));
+    }
     replay_history(&PROP, case, st)
 }
